@@ -17,7 +17,8 @@ PutFns     == {"params_seti", "params_setf", "params_sets"}
 ParamFns   == PutFns \cup {"params_create", "params_read_json", "params_destroy"}
 CreateAll  == {"precond_create", "precond_create_f", "solver_create", "solver_create_f"}
 UseAll     == {"precond_apply", "precond_report", "solver_solve", "solver_solve_f",
-               "solver_solve_mtx", "solver_solve_mtx_f", "solver_report"}
+               "solver_solve_mtx", "solver_solve_mtx_f", "solver_report",
+               "solver_solve_mtx_upd", "solver_solve_mtx_upd_f"}
 DestroyAll == {"precond_destroy", "solver_destroy"}
 AllFns     == ParamFns \cup CreateAll \cup UseAll \cup DestroyAll
 
@@ -44,7 +45,8 @@ Guard(ev) ==
       [] ev.f = "params_read_json"  -> ParamsLive(ev.h) /\ ev.k \in ParamSets
       [] ev.f = "params_destroy"    -> ParamsLive(ev.h)
       [] ev.f \in CreateAll         -> ObjCreatable(ev.h, ev.m, BaseOfFn(ev.f), ev.p)
-      [] ev.f \in UseAll            -> ObjLive(ev.h) /\ (ev.f \in MtxFns => ev.m2 \in Matrices)
+      [] ev.f \in UseAll            -> /\ ObjLive(ev.h) /\ (ev.f \in MtxFns => ev.m2 \in Matrices)
+                                       /\ (ev.f \in UpdFns => (UpdEnabled(ev.h, ev.f) /\ ev.m2 = ob[ev.h].m))
       [] ev.f \in DestroyAll        -> ObjLive(ev.h)
 
 \* the CApi action the event names
